@@ -215,6 +215,10 @@ class PlanJoinTablesQuery:
                 if not isinstance(arg, (Constant, Parameter)):
                     return
 
+        if node.op.lower() == 'is' and any(isinstance(arg, ast.NullConstant) for arg in node.args):
+            # `col IS NULL` also selects the rows an outer join fills with NULLs: it has to stay above the join
+            return
+
         # checked, find table and store condition
 
         node2 = copy.deepcopy(node)
